@@ -1,5 +1,6 @@
 import AslModel.WebSocket
 import AslProofs.WebSocket
+import AslProofs.WebSocketClient
 import AslProofs.Sha1
 import AslProps.C15
 /-!
@@ -484,5 +485,94 @@ example : (run { isClient := false, rng := ⟨1, 2, 3, 4⟩, inp := [0x01, 3, 0x
 example : (run { isClient := false, rng := ⟨1, 2, 3, 4⟩, inp := [0x01, 3, 0x61, 0x62, 0x63, 0x88, 0] }).1 = [[]] := by decide
 -- a frame cut inside its payload is not delivered
 example : (run { isClient := false, rng := ⟨1, 2, 3, 4⟩, inp := [0x81, 0x14, 0x61, 0x62, 0x63] }).1 = [[]] := by decide
+
+/-! ## replies to control frames -/
+
+/-- **The pong carries the ping's payload**: for a ping frame with any non-empty payload (RFC 6455 §5.5 allows at most 125 bytes;
+    proved for every length the library can hold, masked or not, both roles) `receive()` returns an empty result, leaves the
+    connection open, and writes exactly one RFC frame: FIN, opcode 10, masked with the next key of its generator in the client
+    role and unmasked in the server role, whose payload — as the frame reader decodes it — is the ping's payload.
+    (An empty ping gets no pong: `send` returns for length 0 — outside_findings C11-3.) -/
+theorem pong_echoes_ping (c : Conn) (hopen : c.closed = false) (hsound : c.fault = false)
+    (key : Option Rfc6455.Key) (p rest : List UInt8) (hp : p ≠ []) (hl : Fits p)
+    (hi : c.inp = Rfc6455.frame true 9 key p ++ rest) :
+    (receive c).1 = [] ∧ (receive c).2.closed = false ∧ (receive c).2.inp = rest ∧
+    (receive c).2.out = c.out ++ Rfc6455.frame true 10 (if c.isClient then some (Rfc6455.Key.ofValue c.rng.get.1) else none) p ∧
+    readFrame 0 (Rfc6455.frame true 10 (if c.isClient then some (Rfc6455.Key.ofValue c.rng.get.1) else none) p) = .ok true 10 p [] := by
+  have hc : Live c := ⟨hopen, hsound⟩
+  have h := recv_ctl c.inp.length c hc [] false ⟨false, p, key⟩ rest hl (by simpa [Rfc6455.Ctl.bytes, Rfc6455.opPing] using hi)
+  have hr : receive c = ([], afterCtl c false p rest) := by unfold receive; simpa using h
+  have hrf := readFrame_frame true 10 (by decide) (if c.isClient then some (Rfc6455.Key.ofValue c.rng.get.1) else none) p hl [] 0 (fun h => absurd h (by decide))
+  rw [List.append_nil] at hrf
+  rw [hr]
+  unfold afterCtl
+  have hop : opcodeOf 10 = 10 := by decide
+  cases hic : c.isClient <;> simp only [hic] at hrf
+  · rw [sendFrame_server c.rng 10 p hp]
+    simp [hopen, hop]; simpa using hrf
+  · rw [sendFrame_client c.rng 10 p hp]
+    simp [hopen, hop]; simpa using hrf
+
+/-- **Close frame: status code and reason.**  A Close frame whose body is a 2-byte status code and any reason text, arriving at any
+    moment (FIN or not, masked or not): `receive()` returns the reason, `code()` is the status code in network byte order, the
+    connection is closed and nothing is written back (the library closes the socket without echoing a Close frame). -/
+theorem close_code_and_reason (c : Conn) (hopen : c.closed = false) (hsound : c.fault = false)
+    (fin : Bool) (key : Option Rfc6455.Key) (hi lo : UInt8) (reason rest : List UInt8) (hl : Fits (hi :: lo :: reason))
+    (hinp : c.inp = Rfc6455.frame fin 8 key (hi :: lo :: reason) ++ rest) :
+    (receive c).1 = reason ∧ (receive c).2.closed = true ∧ (receive c).2.code = hi.toNat * 256 + lo.toNat ∧
+    (receive c).2.out = c.out ∧ (receive c).2.fault = false := by
+  have hc : Live c := ⟨hopen, hsound⟩
+  have hcode : hi.toNat <<< 8 ||| lo.toNat = hi.toNat * 256 + lo.toNat := by
+    have := AslProofs.Bits.shl_or hi.toNat lo.toNat 8 (by have := lo.toNat_lt; omega)
+    simpa using this
+  unfold receive
+  rw [recvLoop, isClosed_frame c hc _ rest (frame_ne_nil fin 8 key _) hinp, hinp,
+    readFrame_frame fin 8 (by decide) key _ hl rest _ (fun h => absurd h (by decide))]
+  simp [hcode, hsound]
+
+/-! ## client handshake -/
+
+/-- RFC 6455 §4.1 item 7: the `Sec-WebSocket-Key` that `connect` sends is the RFC 4648 base64 text of a 16-byte nonce -/
+theorem client_key_is_base64_of_16_bytes (rng : Rng) :
+    ∃ nonce : List UInt8, nonce.length = 16 ∧ (clientKey rng).1 = C15.Rfc.base64 nonce := by
+  refine ⟨(clientNonce nonceLen rng).1, ?_, ?_⟩
+  · rw [clientNonce_length]; rfl
+  · unfold clientKey; simp only; rw [C15.base64_rfc]
+
+
+/-- the request `connect` writes is the text of the source (regenerated) around path, host, port and that key; it ends with
+    the empty line -/
+theorem client_request_shape (rng : Rng) (path host port : List UInt8) (resp : List UInt8) :
+    (clientConnect rng path host port resp).1 =
+      reqGet ++ path ++ reqHost ++ host ++ reqColon ++ port ++ reqKey ++ (clientKey rng).1 ++ reqTail ∧
+    reqTail.drop (reqTail.length - 4) = [13, 10, 13, 10] := ⟨rfl, by decide⟩
+
+/-- **The client accepts the library server's answer for every key** (with or without the protocol line): both handshakes compose. -/
+theorem client_accepts_library_server (key : List UInt8) (proto : Bool) : clientAccepts (serverResponse key proto) = true :=
+  client_accepts_any_accept_value (acceptKey key) proto (encodeBase64_no_lf _)
+
+/-- RFC 6455 §4.1: the client must fail the connection unless `Sec-WebSocket-Accept` is the accept key of the key it sent.
+    As a statement about `connect`: among the answers of the server's shape, exactly those carrying the accept key are accepted. -/
+def client_checks_accept_full : Prop :=
+  ∀ (key acc : List UInt8) (proto : Bool), (∀ b ∈ acc, b ≠ 10) → (clientAccepts (answerWith acc proto) = true ↔ acc = acceptKey key)
+
+/-- `connect` never looks at `Sec-WebSocket-Accept`: a 101 answer with `Upgrade: websocket` and `Connection: Upgrade` is accepted
+    whatever stands in the accept line.  (Recorded as outside_findings C11-r3-2b, not repaired: the property requires the key the
+    library *produces* to be the RFC's — `accept_key_rfc` — and no message is lost or altered by the missing test; replayed on the
+    real library by the `chs` op with wrong and missing keys.) -/
+theorem client_ignores_accept_value (acc : List UInt8) (proto : Bool) (hacc : ∀ b ∈ acc, b ≠ 10) :
+    clientAccepts (answerWith acc proto) = true := client_accepts_any_accept_value acc proto hacc
+
+theorem client_checks_accept_counterexample : ¬ client_checks_accept_full := by
+  intro h
+  have h1 := (h [] [120] false (by decide)).mp (client_accepts_any_accept_value [120] false (by decide))
+  have h2 := (h [] [121] false (by decide)).mp (client_accepts_any_accept_value [121] false (by decide))
+  rw [← h2] at h1
+  exact absurd h1 (by decide)
+
+-- hypotheses are satisfiable: a ping of 3 bytes to a server-role connection, a close frame with code 1001 and a reason
+example : (receive { isClient := false, rng := ⟨1, 2, 3, 4⟩, inp := Rfc6455.frame true 9 none [1, 2, 3] }).2.out = [0x8a, 3, 1, 2, 3] := by decide
+example : (receive { isClient := false, rng := ⟨1, 2, 3, 4⟩, inp := Rfc6455.frame true 8 none [3, 233, 98, 121] }).2.code = 1001 := by decide
+example : ∀ b ∈ ([120] : List UInt8), b ≠ 10 := by decide
 
 end C11
